@@ -256,3 +256,33 @@ def int_data(seed):
             ok, det = False, {"raised": repr(e)[:200], "X": Xi.tolist()}
         res[name] = (ok, det)
     return res
+
+
+def offset_data(seed):
+    """C04 (B): finite data of large range (two groups of samples 1e5 units apart, un-centred) is valid data: fit must still
+    leave a coherent model (probability rows, finite score)"""
+    rs = np.random.RandomState(seed)
+    n, d = 16, 3
+    X = rs.normal(size=(n, d))
+    X[n // 2:] += 1.0e5
+    res = {}
+    for name, cls in estimators().items():
+        fails = []
+        for extra in ({}, {"batch_size": 5}):
+            import inspect
+            params = inspect.signature(cls.__init__).parameters
+            kw = {k: v for k, v in extra.items() if k in params}
+            if extra and not kw:
+                continue
+            if name == "Kauri":
+                kw.update(max_clusters=3, random_state=seed)
+            else:
+                kw.update(n_clusters=2, max_iter=2, random_state=seed)
+            try:
+                bad = check_fit(name, cls(**kw), (X, None), kw)
+            except Exception as e:
+                bad = ["raised " + repr(e)[:160]]
+            if bad:
+                fails.append({"config": {k: v for k, v in kw.items() if k != "random_state"}, "violations": bad})
+        res[name] = fails
+    return res
